@@ -1,7 +1,7 @@
 (* Judge for the posit family: maps a case (cfg, op, args) to the model's answer
    and decides whether the implementation's answer is acceptable. *)
 From Coq Require Import ZArith QArith Qabs Lia Bool List.
-From UV Require Import RoundSpec RoundNE PositMono2 PositSpec Num PositModel PositFast Ops Verdict NativeJudge.
+From UV Require Import RoundSpec RoundNE PositMono2 PositSpec Num PositModel PositFast Ops Verdict NativeJudge SqrtModel.
 Import ListNotations.
 Local Open Scope Z_scope.
 
@@ -42,6 +42,10 @@ Definition judge_posit (cfg : list Z) (op : Z) (args res : list Z) : verdict :=
   if Z.eqb op OP_div then exact [pdiv_f n es a b] (negb (Z.eqb (posit_class n es op a b) 0)) else
   if Z.eqb op OP_rcp then exact [precip_f n es a] true else
   if Z.eqb op OP_neg then exact [pneg n a] true else
+  if Z.eqb op OP_sqrt then
+    (let e := psqrt n es a in
+     if Z.leb n 16 then exact [e] true   (* correctly rounded up to 16 bits; one of the two neighbours above *)
+     else mkV (list_eqb [e] res || list_eqb [wrap n (e + 1)] res || list_eqb [wrap n (e - 1)] res) [e] true) else
   if Z.eqb op OP_abs then exact [pabs n a] true else
   if Z.eqb op OP_inc then (if pinc_defined n a then exact [pinc n a] true else mkV true res false) else
   if Z.eqb op OP_dec then (if pdec_defined n a then exact [pdec n a] true else mkV true res false) else
